@@ -78,6 +78,8 @@ func compat(a, w *ty) bool {
 type gvar struct {
 	name string
 	t    *ty
+	sval string // known string value (environment strings that name a field of another variable)
+	hasS bool
 }
 
 type gfunc struct {
@@ -121,10 +123,10 @@ func pickS(g *G, xs []string, l string) string {
 	return xs[rapid.IntRange(0, len(xs)-1).Draw(g.t, l)]
 }
 
-var varNames = []string{"a", "b", "c", "x", "y", "z", "foo", "bar", "v1", "my_var", "my-var", "n", "list", "obj", "T", "été"}
+var varNames = []string{"a", "b", "c", "x", "y", "z", "foo", "bar", "v1", "my_var", "my-var", "n", "list", "obj", "T", "été", "k", "f0", "can"}
 var loopNames = []string{"i", "k", "v", "x", "item", "each", "e-1"}
 var attrNames = []string{"a", "b", "c", "id", "name", "k-1", "x"}
-var dictKeys = []string{"a", "b", "k1", "k2", "zeta", "B", "10", "9", "true"}
+var dictKeys = []string{"a", "b", "k1", "k2", "zeta", "B", "10", "9", "true", "null", "if", "for", "2.5"}
 var strPool = []string{"", "a", "foo", "bar", "hello world", "12", "-3", "0.5", "2.25", "true", "false", "é", "日本", "x y", "A", "abc", "1e2", "0"}
 var numPool = []string{"0", "1", "2", "3", "4", "5", "7", "8", "10", "12", "16", "100", "255", "1000", "1/2", "1/4", "3/4", "5/2", "7/8", "1/16", "1099511627776", "3/1024"}
 
@@ -253,9 +255,41 @@ func (g *G) GenEnv() []Var {
 		used[nm] = true
 		t := g.randType(2)
 		out = append(out, Var{Name: nm, V: g.randVal(t)})
-		g.scope = append(g.scope, gvar{nm, t})
+		g.scope = append(g.scope, gvar{name: nm, t: t})
+	}
+	// selector variables: a string variable NAMED like a field of an object variable whose VALUE
+	// is (another) field name of that object, so that  obj.b  /  obj[b]  /  {b = ..}  /  {(b) = ..}
+	// / {"${b}" = ..}  mean different things
+	for _, v := range append([]gvar{}, g.scope...) {
+		if v.t.k != tObj || len(v.t.fields) == 0 || len(out) >= 6 || !g.pct(60, "selvar") {
+			continue
+		}
+		f1 := v.t.fields[g.int(0, len(v.t.fields)-1, "selname")].name
+		f2 := v.t.fields[g.int(0, len(v.t.fields)-1, "selval")].name
+		if used[f1] {
+			continue
+		}
+		used[f1] = true
+		out = append(out, Var{Name: f1, V: Val{T: "str", S: f2}})
+		g.scope = append(g.scope, gvar{name: f1, t: tyStr, sval: f2, hasS: true})
 	}
 	return out
+}
+
+// selector returns the name of a visible string variable whose value is known to be s.
+func (g *G) selector(s string) (string, bool) {
+	seen := map[string]bool{}
+	for i := len(g.scope) - 1; i >= 0; i-- {
+		v := g.scope[i]
+		if seen[v.name] {
+			continue
+		}
+		seen[v.name] = true
+		if v.hasS && v.sval == s {
+			return v.name, true
+		}
+	}
+	return "", false
 }
 
 // GenFuncs draws 0-3 user functions; function i may call functions j<i.
@@ -283,12 +317,12 @@ func (g *G) GenFuncs() []FuncDef {
 			}
 			gf.params = append(gf.params, pt)
 			fd.Params = append(fd.Params, pnames[j])
-			sc = append(sc, gvar{pnames[j], pt})
+			sc = append(sc, gvar{name: pnames[j], t: pt})
 		}
 		if g.pct(30, "variadic") {
 			gf.rest = tyNum
 			fd.VarParam = "rest"
-			sc = append(sc, gvar{"rest", seqOf(tyNum, -1)})
+			sc = append(sc, gvar{name: "rest", t: seqOf(tyNum, -1)})
 		}
 		switch g.int(0, 4, "rty") {
 		case 0, 1:
@@ -358,6 +392,10 @@ func (g *G) pathsFrom(base *Node, t, w *ty, d int, out *[]*Node) {
 	case tObj:
 		for _, f := range t.fields {
 			g.pathsFrom(&Node{K: KAttr, A: base, Name: f.name}, f.t, w, d-1, out)
+			if sv, ok := g.selector(f.name); ok {
+				// obj[sel] where the VALUE of sel names the field
+				g.pathsFrom(&Node{K: KIndex, A: base, B2: &Node{K: KVar, Name: sv}}, f.t, w, d-1, out)
+			}
 		}
 	case tSeq:
 		for i := 0; i < t.n && i < 2; i++ {
@@ -460,34 +498,149 @@ func isIdent(s string) bool {
 			return false
 		}
 	}
-	switch s {
-	case "for", "in", "if", "else", "endif", "endfor":
-		return false
-	}
 	return true
 }
 
 // item builds an object constructor item for a fixed key, choosing a key spelling.
 func (g *G) item(key string, val *Node) Item {
+	// a visible variable whose value is this key: refer to it in one of the evaluated forms
+	if sv, ok := g.selector(key); ok && g.pct(40, "keysel") {
+		ref := &Node{K: KVar, Name: sv}
+		switch g.w("keyselform", 3, 2, 1) {
+		case 0:
+			return Item{KS: "raw", KeyE: &Node{K: KTmpl, Parts: []*Part{{K: PInterp, E: ref}}}, Val: val}
+		case 1:
+			return Item{KS: "expr", KeyE: ref, Val: val}
+		default:
+			return Item{KS: "raw", KeyE: &Node{K: KTmpl, Parts: []*Part{{K: PInterp, E: ref}, {K: PInterp, E: strLit("")}}}, Val: val}
+		}
+	}
 	r := g.int(0, 9, "keystyle")
+	isNum := false
+	if r2, ok := ParseRat(key); ok && r2.Sign() >= 0 && RatString(r2) == key && ExactRat(r2) {
+		isNum = true
+	}
 	switch {
-	case r < 5 && isIdent(key):
-		// note: true/false/null as bare keys are literal names too
+	case r < 4 && isIdent(key):
+		// a bare name is a literal key (also true/false/null/if/for)
 		return Item{KS: "ident", Name: key, Val: val}
-	case r < 8:
-		return Item{KS: "quoted", KeyE: strLit(key), Val: val}
+	case r < 4 && isNum:
+		// a number literal as key: converted to its canonical decimal string
+		return Item{KS: "raw", KeyE: numLit(key), Val: val}
+	case r < 7:
+		return Item{KS: "raw", KeyE: strLit(key), Val: val}
 	default:
-		// computed key: a number literal where the key is a canonical number, else a template/concatenation
-		if r2, ok := ParseRat(key); ok && r2.Sign() >= 0 && RatString(r2) == key && r2.IsInt() {
+		// computed key
+		if isNum {
+			if r2, _ := ParseRat(key); r2.IsInt() && g.bool("numsum") {
+				return Item{KS: "raw", KeyE: &Node{K: KBin, Op: "+", A: numLit(key), B2: numLit("0")}, Val: val}
+			}
 			return Item{KS: "expr", KeyE: numLit(key), Val: val}
 		}
 		if key == "true" || key == "false" {
-			return Item{KS: "expr", KeyE: &Node{K: KBool, B: key == "true"}, Val: val}
+			b := &Node{K: KBool, B: key == "true"}
+			if g.bool("boolkeytmpl") {
+				return Item{KS: "raw", KeyE: &Node{K: KTmpl, Parts: []*Part{{K: PInterp, E: b}}}, Val: val}
+			}
+			return Item{KS: "expr", KeyE: b, Val: val}
 		}
 		if len(key) >= 2 {
 			return Item{KS: "expr", KeyE: &Node{K: KTmpl, Parts: []*Part{{K: PLit, S: key[:1]}, {K: PInterp, E: strLit(key[1:])}}}, Val: val}
 		}
 		return Item{KS: "expr", KeyE: strLit(key), Val: val}
+	}
+}
+
+// keyName: a single bare name (or null / true / false) to be used in key position:
+// mostly a visible variable of primitive type (innermost first, so for-iterators are
+// preferred inside loops), sometimes an undefined name, null, a keyword-like literal or a
+// variable of a non-primitive type (then the language demands an error).
+func (g *G) keyName() *Node {
+	var prims, others []string
+	seen := map[string]bool{}
+	for i := len(g.scope) - 1; i >= 0; i-- {
+		v := g.scope[i]
+		if seen[v.name] {
+			continue
+		}
+		seen[v.name] = true
+		if v.t.prim() {
+			prims = append(prims, v.name)
+		} else {
+			others = append(others, v.name)
+		}
+	}
+	switch g.w("keyname", 12, 2, 1, 2, 1) {
+	case 0:
+		if len(prims) > 0 {
+			return &Node{K: KVar, Name: prims[g.int(0, len(prims)-1, "keyprim")]}
+		}
+		return &Node{K: KBool, B: g.bool("keybool")}
+	case 1:
+		return &Node{K: KVar, Name: pickS(g, []string{"nope", "if", "in", "kk", "undefined_var", "endif"}, "keyundef")}
+	case 2:
+		return &Node{K: KNull}
+	case 3:
+		return &Node{K: KBool, B: g.bool("keybool")}
+	default:
+		if len(others) > 0 {
+			return &Node{K: KVar, Name: others[g.int(0, len(others)-1, "keyother")]}
+		}
+		return &Node{K: KNull}
+	}
+}
+
+// refKeyItem: an item whose key refers to a name, in one of the forms in which the
+// language distinguishes "a bare name" from "an expression".
+func (g *G) refKeyItem(val *Node) Item {
+	n := g.keyName()
+	interp := &Part{K: PInterp, E: n}
+	tm := func(ps ...*Part) *Node { return &Node{K: KTmpl, Parts: ps} }
+	switch g.w("keyform", 6, 3, 2, 2, 2, 2, 2) {
+	case 0:
+		return Item{KS: "raw", KeyE: tm(interp), Val: val} // "${k}"
+	case 1:
+		return Item{KS: "expr", KeyE: n, Val: val} // (k)
+	case 2:
+		return Item{KS: "raw", KeyE: tm(interp, &Part{K: PLit, S: pickS(g, []string{"x", "-1", " "}, "keysuffix")}), Val: val} // "${k}x"
+	case 3:
+		return Item{KS: "raw", KeyE: tm(&Part{K: PLit, S: pickS(g, []string{"x", "k", "_"}, "keyprefix")}, interp), Val: val} // "x${k}"
+	case 4:
+		return Item{KS: "raw", KeyE: tm(interp, &Part{K: PLit, S: "\n"}), Val: val} // heredoc-able
+	case 5:
+		// "${k.a}" / "${k[0]}": a traversal, not a bare name
+		seen := map[string]bool{}
+		for i := len(g.scope) - 1; i >= 0; i-- {
+			v := g.scope[i]
+			if seen[v.name] {
+				continue
+			}
+			seen[v.name] = true
+			if v.t.k == tObj {
+				for _, f := range v.t.fields {
+					if f.t.prim() {
+						return Item{KS: "raw", KeyE: tm(&Part{K: PInterp, E: &Node{K: KAttr, A: &Node{K: KVar, Name: v.name}, Name: f.name}}), Val: val}
+					}
+				}
+			}
+			if v.t.k == tSeq && v.t.n > 0 && v.t.elem.prim() {
+				return Item{KS: "raw", KeyE: tm(&Part{K: PInterp, E: &Node{K: KIndex, A: &Node{K: KVar, Name: v.name}, B2: numLit("0")}}), Val: val}
+			}
+		}
+		return Item{KS: "raw", KeyE: tm(interp), Val: val}
+	default:
+		// the bare name itself: a literal key
+		switch n.K {
+		case KVar:
+			return Item{KS: "ident", Name: n.Name, Val: val}
+		case KNull:
+			return Item{KS: "ident", Name: "null", Val: val}
+		default:
+			if n.B {
+				return Item{KS: "ident", Name: "true", Val: val}
+			}
+			return Item{KS: "ident", Name: "false", Val: val}
+		}
 	}
 }
 
@@ -501,7 +654,11 @@ func (g *G) dictCons(w *ty, d int) *Node {
 			continue
 		}
 		used[k] = true
-		o.Items = append(o.Items, g.item(k, g.Expr(w.elem, d)))
+		if g.pct(40, "refkey") {
+			o.Items = append(o.Items, g.refKeyItem(g.Expr(w.elem, d)))
+		} else {
+			o.Items = append(o.Items, g.item(k, g.Expr(w.elem, d)))
+		}
 	}
 	return o
 }
@@ -783,9 +940,9 @@ func (g *G) loopVars(kt, vt *ty) (string, string, func()) {
 	}
 	mark := len(g.scope)
 	if key != "" {
-		g.scope = append(g.scope, gvar{key, kt})
+		g.scope = append(g.scope, gvar{name: key, t: kt})
 	}
-	g.scope = append(g.scope, gvar{val, vt})
+	g.scope = append(g.scope, gvar{name: val, t: vt})
 	return key, val, func() { g.scope = g.scope[:mark] }
 }
 
